@@ -10,6 +10,7 @@ RULE_C07 = 'C07 profile: arrivals larger than the free space, priorities changin
 
 def run(tier, seed):
     spec = E.make_spec(PID, PROFILE_C07, RULE_C07, n_quick=140)
+    spec = E.with_master_stage(spec, PID, tier, seed)
     core.standard_run(PID, tier, seed, spec)
 
 
